@@ -277,7 +277,8 @@ def checkNode (s : St) (cnode : Nat) : St × Bool :=
       else
         let ts := vs.filter (·.tunnel)
         let s2 := ts.foldl (fun s v => applyVerdict s { v with a := { v.a with confirmed := true }, leak := some true }) s1
-        (s2, true)
+        -- /repo f65adf3: the node is (kept) in the dirty set until releaseNodes succeeds
+        (markDirty s2 cnode, true)
     else (markClean s1 cnode, false)
 
 def insertSorted (x : Nat) : List Nat → List Nat
